@@ -365,7 +365,30 @@ func forkInvocations(r *ev.Run) {
 		{Kind: "aa", Src: "gen", Size: 2, Cons: "id", Map: "top"},
 		{Kind: "int", Src: "gen", Size: 2, Cons: "add", Dis: "gen-false", DisAt: "cons"},
 	}
+	// ... and every program of the dataflow family within two steps of the
+	// base (sizes 0-3, projections through arrays and typed maps of structs,
+	// literal / input / run-time sources, mapped and wrapped consumers)
+	seen := map[string]bool{}
 	for _, d := range progs {
+		seen[d.String()] = true
+	}
+	for _, d := range progen.DataflowFamily(2) {
+		if !seen[d.String()] {
+			seen[d.String()] = true
+			progs = append(progs, d)
+		}
+	}
+	// ... and, one step further out, the programs over empty collections
+	for _, d := range progen.DataflowFamily(3) {
+		if d.Size == 0 && !seen[d.String()] {
+			seen[d.String()] = true
+			progs = append(progs, d)
+		}
+	}
+	for _, d := range progs {
+		if r.Expired("fork invocations") {
+			break
+		}
 		p := progen.Dataflow(d)
 		if p == nil {
 			continue
@@ -537,7 +560,7 @@ func main() {
 	}
 	r.Rule = "every JSON escape spelling (\\u0000-\\u00ff, boundary code units, a surrogate pair, named escapes) as a string value and as a typed-map key; stage signatures with 1 parameter over 75 types (9 base types x array depth 0-2 x typed-map nesting 0-2) x every value of a per-type list (nested structs, typed maps, nulls, +-2^53+-1, max/min int64, 1e21, 5e-324, -0.0, strings with escapes/NUL/non-ASCII, empty collections) and split over an array, a typed map and an empty array of the values; " +
 		"signatures with 2 parameters (all ordered type pairs, depth<=1 in quick) x all 4 split subsets (both orders of naming two split arguments, all 6 orders of three); each through BuildCallSource -> compile -> InvocationDataFromSource -> BuildCallSource: call name, include, split set, argument values (numbers as exact decimals) and text stability; " +
-		"plus the _invocation file of every stage fork of 9 real pipestance runs (compiles, arguments equal the job's). distinct = distinct (signature, values, split set); non-trivial = some argument is not null"
+		"plus the _invocation file of every stage fork of real pipestance runs of 9 chosen programs and of every dataflow-family program within two steps of the base, three for empty collections (compiles, arguments equal the job's). distinct = distinct (signature, values, split set); non-trivial = some argument is not null"
 	r.Set("cases", len(cases))
 	order := r.Rotate(len(cases))
 	ev.ParallelFor(len(cases), func(i int) bool {
